@@ -1,7 +1,7 @@
 """C09 — embedder configuration applies uniformly at every nesting level."""
 from __future__ import annotations
 import z3
-from sx.harness import HarnessSpec
+from sx.harness import HarnessSpec, auto_replay
 from sx.core import SymInt, SymBool, mk_bool, zi, to_z3bool, sym_and, sym_or, sym_not, eng
 from sx.values import SymBytes, mk_bytes, items_of, bytes_eq, from_bytes_model
 from sx.containers import SDict, key_eq
@@ -29,13 +29,13 @@ EXPLANATION = ('(1) per construct, one step with the nested run summarised: the 
                "parent's (and the parent's own flags are unchanged by the construct); (2) signature-related instructions call the "
                'signature-extension plugin exactly once; (3) OP_SET_FLAG / OP_UNSET_FLAG with a symbolic operand change exactly the integer '
                'flag named by the operand; (4) end-to-end: real nested execution of probe programs under embedder flags / plugins / contracts')
-MUST_REACH = ['body_config_compared', 'plugin_called', 'flag_set', 'flag_unset', 'e2e_probe']
+MUST_REACH = ['body_config_compared', 'second_body_compared', 'plugin_called', 'flag_set', 'flag_unset', 'e2e_probe']
 
 INT_FLAGS = list(range(11))
 
 
 def embedder_flags(c):
-    d = SDict()
+    d = c.dict()
     for i in INT_FLAGS:
         d[i] = c.bool(f'flag{i}')
     d['ts_threshold'] = c.int('ts_threshold')
@@ -43,7 +43,8 @@ def embedder_flags(c):
     if bool(c.bool('has_disallow_eval')):
         d['disallow_OP_EVAL'] = True
     d['eval_return'] = c.bool('eval_return')
-    d.wlog = []
+    if hasattr(d, 'wlog'):
+        d.wlog = []
     return d
 
 
@@ -84,23 +85,27 @@ CONSTRUCTS = {
 }
 
 
-def h_construct(c, pkg, op):
+def h_construct(c, pkg, op, pre=None):
+    """one construct from a parent running under an arbitrary embedder configuration; `pre`: the parent first executes
+    that real flag instruction on flag 1.  Bodies are summarised and may themselves execute a flag instruction."""
     F, C = pkg.functions, pkg.classes
     emb = embedder_flags(c)
     log = []
-    plugins = SDict({'signature_extensions': [plugin_stub(log, 'sigext')], 'check_template': [plugin_stub(log, 'ct')]})
+    plugins = c.dict({'signature_extensions': [plugin_stub(log, 'sigext')], 'check_template': [plugin_stub(log, 'ct')]})
     contract = vmstep.StubContract(c)
-    contracts = SDict({b'C': contract})
+    contracts = c.dict({b'C': contract})
     operands, lens = CONSTRUCTS[op]
     tape = C.Tape(operands(), callstack_limit=2, contracts=contracts, plugins=plugins)
     # the parent runs under the embedder's configuration, computed by the real code
     F.set_tape_flags(tape, emb)
-    parent_before = tape.flags.copy()
     stack = C.Stack()
     for i, n in enumerate(lens):
         stack.put(c.bytes(f's{i}', n))
-    cache = SDict()
-    summ = vmstep.Summary(pkg, pops=0, pushes=0, writes_cache=False, may_return=False)
+    cache = c.dict()
+    if pre:
+        getattr(F, pre)(C.Tape(b'\x01\x01', flags=tape.flags), stack, cache)
+    parent_before = tape.flags.copy()
+    summ = vmstep.make_summary(c, pkg, pops=0, pushes=0, writes_cache=False, may_return=False, flag_ops=True, parent=tape)
     if op == 'OP_CALL':
         # define function 0 with the real OP_DEF first (its sub-tape construction is part of the claim)
         dt = C.Tape(b'\x00\x00\x01\x00', callstack_limit=2, contracts=contracts, plugins=plugins, flags=tape.flags,
@@ -108,12 +113,21 @@ def h_construct(c, pkg, op):
         F.OP_DEF(dt, stack, cache)
     with vmstep.Installed(pkg, summ):
         r = outcome_of(getattr(F, op), tape, stack, cache)
-    eq, why = flags_equal(tape.flags, parent_before)
-    c.check('parent_flags_unchanged_by_construct', eq, why=why, op=op)
+    if not any(b.flag_op for b in summ.bodies) or op == 'OP_EVAL':
+        # nothing but a flag instruction changes the parent's flags (an evaluated script cannot change them at all)
+        eq, why = flags_equal(tape.flags, parent_before)
+        c.check('parent_flags_unchanged_by_construct', eq, why=why, op=op)
     for b in summ.bodies:
         c.reach('body_config_compared')
-        eq, why = flags_equal(b.effective_flags, parent_before)
+        if b.k:
+            c.reach('second_body_compared')
+        # entering a body changes no flag: the body runs under exactly the flags in force at that point
+        eq, why = flags_equal(b.effective_flags, b.parent_flags_at_entry)
         c.check('body_flags_equal_parent_flags', eq, why=why, op=op, body=b.k)
+        if b.k and summ.bodies[b.k - 1].tape is b.tape:
+            # the next run of the same body (loop iteration) starts from the flags the previous one ended with
+            eq, why = flags_equal(b.effective_flags, summ.bodies[b.k - 1].flags_at_exit)
+            c.check('flag_instruction_effect_survives_loop_boundary', eq, why=why, op=op, body=b.k)
         c.check('body_sees_parent_signature_extensions',
                 'signature_extensions' in b.plugins and list(b.plugins['signature_extensions']) ==
                 list(plugins['signature_extensions']), op=op, body=b.k)
@@ -121,33 +135,10 @@ def h_construct(c, pkg, op):
                 'check_template' in b.plugins and list(b.plugins['check_template']) == list(plugins['check_template']),
                 op=op, body=b.k)
         c.check('body_sees_parent_contracts', b'C' in b.contracts and b.contracts[b'C'] is contract, op=op, body=b.k)
-        c.check('body_call_limit_is_parent_limit', mk_bool(zi(b.callstack_limit) == 2))
+        c.check('body_call_limit_is_parent_limit', b.callstack_limit == 2)
     if op == 'OP_EVAL':
         if 'disallow_OP_EVAL' in parent_before:
             c.check('disallowed_eval_stays_disallowed', r[0] == 'raise' and not summ.bodies)
-
-
-def r_construct(inputs, params, obligation):
-    """concrete demonstration on the real package: a probe inside the construct observes the configuration"""
-    import tapescript
-    op = params['op']
-    bodies = {'OP_IF': 'true if { PROBE }', 'OP_IF_ELSE': 'false if { } else { PROBE }', 'OP_TRY_EXCEPT': 'try { PROBE } except { }',
-              'OP_LOOP': 'true loop { PROBE pop0 false }', 'OP_CALL': 'def 0 { PROBE } call d0', 'OP_EVAL': 'push ~ { PROBE } eval'}
-    res = {}
-    # plugin visibility
-    calls = []
-    src = bodies[op].replace('PROBE', 'msg x00 pop0')
-    tapescript.run_script(tapescript.compile_script(src), {'sigfield1': b'a'},
-                          plugins={'signature_extensions': [lambda t, s, ch: calls.append(1)]})
-    res['plugin_calls_in_body'] = len(calls)
-    # flag visibility: flag 1 off => derive_scalar must not write cache key b'x'
-    src = bodies[op].replace('PROBE', 'push x' + '11' * 32 + ' derive_scalar pop0')
-    _, _, cache = tapescript.run_script(tapescript.compile_script(src), {}, additional_flags={1: False})
-    res['flag1_off_respected_in_body'] = b'x' not in cache
-    bad = (res['plugin_calls_in_body'] != 1) if 'plugin' in obligation or 'extension' in obligation else \
-          (not res['flag1_off_respected_in_body']) if 'flags' in obligation else False
-    res['reproduced'] = bool(bad)
-    return res
 
 
 # ------------------------------------------------------------------------------ plugin exactly once
@@ -246,10 +237,12 @@ def h_flag_op(c, pkg, op, k):
         for i in INT_FLAGS:
             hit = mk_bool(zi(named) == i) if k else False
             present = i in after
-            c.check('named_flag_removed', sym_or(sym_not(hit), not present), flag=i, operand=operand)
+            # the named flag reads as off afterwards (absent, or present and False); every other flag is untouched
             if present:
+                off = mk_bool(z3.Not(to_z3bool(after[i])))
                 unchanged = mk_bool(to_z3bool(after[i]) == to_z3bool(before[i]))
-                c.check('other_flags_unchanged', unchanged, flag=i)
+                c.check('named_flag_is_off', sym_or(sym_not(hit), off), flag=i, operand=operand)
+                c.check('other_flags_unchanged', sym_or(hit, unchanged), flag=i)
             else:
                 c.check('only_named_flag_removed', hit, flag=i)
         c.reach('flag_unset')
@@ -275,7 +268,7 @@ def r_flag_op(inputs, params, obligation):
             ok = r[0] == 'raise' and after == before
     else:
         if named in INT_FLAGS:
-            ok = r[0] == 'ok' and named not in after and all(after.get(i) == before.get(i) for i in before if i != named)
+            ok = r[0] == 'ok' and not after.get(named, False) and all(after.get(i) == before.get(i) for i in before if i != named)
         else:
             ok = r[0] == 'ok' and after == before
     return {'reproduced': not ok, 'operand': operand.hex(), 'named': named, 'outcome': repr(r)[:120],
@@ -293,6 +286,7 @@ PROBES = {
     'flag1': 'push x' + '11' * 32 + ' derive_scalar pop0',          # writes cache[b"x"] iff flag 1 is on
     'plugin': 'msg x00 pop0',                                          # calls the signature extension once
     'contract': 'push d0 push s"C" invoke',                            # reaches contract b"C"
+    'unset1': 'push x' + '11' * 32 + ' derive_scalar pop0',            # after a top-level `unset_flag d1`: never writes
 }
 
 
@@ -300,6 +294,8 @@ def _nest(path, probe):
     src = PROBES[probe]
     for w in reversed(path):
         src = WRAPS[w].replace('{B}', src)
+    if probe == 'unset1':
+        src = 'unset_flag d1 ' + src
     return src
 
 
@@ -319,6 +315,8 @@ def h_e2e(c, pkg, path, probe):
     if probe == 'flag1':
         wrote = b'x' in cache
         c.check('flag_turned_off_stays_off_at_every_level', wrote == flag1, path='/'.join(path))
+    elif probe == 'unset1':
+        c.check('flag_unset_by_instruction_stays_off_at_every_level', b'x' not in cache, path='/'.join(path))
     elif probe == 'plugin':
         c.check('signature_extension_runs_exactly_once_per_instruction', log.count('sigext') == 1, calls=len(log),
                 path='/'.join(path))
@@ -348,7 +346,8 @@ def r_e2e(inputs, params, obligation):
     if r[0] != 'ok':
         return {'reproduced': True, 'raised': repr(r[1])[:200], 'src': src}
     cache = r[1][2]
-    bad = {'flag1': (b'x' in cache) != bool(flag1), 'plugin': len(calls) != 1, 'contract': cn.n != 1}[probe]
+    bad = {'flag1': (b'x' in cache) != bool(flag1), 'plugin': len(calls) != 1, 'contract': cn.n != 1,
+           'unset1': b'x' in cache}[probe]
     return {'reproduced': bool(bad), 'src': src, 'flag1': flag1, 'wrote_x': b'x' in cache, 'plugin_calls': len(calls),
             'contract_calls': cn.n}
 
@@ -368,7 +367,8 @@ def _sig(v):
 
 
 HARNESSES = [
-    HarnessSpec('construct', h_construct, [{'op': o} for o in CONSTRUCTS], replay=r_construct, signature=_sig),
+    HarnessSpec('construct', h_construct, [{'op': o, 'pre': p} for o in CONSTRUCTS for p in (None, 'OP_UNSET_FLAG', 'OP_SET_FLAG')],
+                replay=auto_replay(h_construct), signature=_sig),
     HarnessSpec('plugin_once', h_plugin_once, [{'op': o} for o in SIG_OPS], replay=r_plugin_once, signature=_sig),
     HarnessSpec('flag_op', h_flag_op, lambda t: [{'op': o, 'k': k} for o in ('OP_SET_FLAG', 'OP_UNSET_FLAG')
                                                 for k in (range(0, 4) if t == 'quick' else range(0, 5))],
